@@ -242,6 +242,11 @@ class Translator:
             if n == 'int' and len(args) == 1:
                 t, ty = self.expr(args[0], cx)
                 return self.as_int(t, ty), INT
+            if n == 'isinstance' and len(args) == 2 and isinstance(args[1], ast.Name) and args[1].id == 'int':
+                t, ty = self.expr(args[0], cx)
+                if ty == INT:
+                    return 'true', BOOL
+                raise Unsupported('isinstance on a non-int')
             if n == 'cls':
                 parts = [self.expr(a, cx) for a in args] + [self.expr(k.value, cx) for k in e.keywords]
                 return '(' + ', '.join(p[0] for p in parts) + ')', ('tuple', tuple(p[1] for p in parts))
@@ -352,7 +357,11 @@ class Translator:
                     raise Unsupported(f'self.{tgt.attr} written but not declared in writes')
                 return f'let self_{tgt.attr.lstrip("_")} := {t} in\n{k(cx)}'
             raise Unsupported(f'assignment target {ast.unparse(tgt)}')
+        if isinstance(s, ast.With) and getattr(cx, 'cut_at_with', False):
+            return rest(cx)       # the pure prefix ends here
         if isinstance(s, ast.Return):
+            if getattr(cx, 'early', None) is not None:
+                return cx.early
             if s.value is None:
                 raise Unsupported('bare return')
             t, ty = self.expr(s.value, cx)
@@ -378,6 +387,8 @@ class Translator:
         c.written = cx.written
         c.rettype = getattr(cx, 'rettype', None)
         c.retseen = cx.retseen
+        c.cut_at_with = getattr(cx, 'cut_at_with', False)
+        c.early = getattr(cx, 'early', None)
         return c
 
     def ret(self, t, ty, cx):
@@ -424,6 +435,8 @@ class Translator:
         cx.written = list(spec.get('writes', []))
         cx.rettype = spec.get('ret')
         cx.retseen = []
+        cx.cut_at_with = spec.get('cut_at_with', False)
+        cx.early = spec.get('early_return')
         params = []
         for a in sorted(spec.get('selfattrs', {})):
             params.append(('self_' + a.lstrip('_'), spec['selfattrs'][a]))
@@ -446,7 +459,11 @@ class Translator:
         else:
             def fall(c):
                 if 'fallthrough' in spec:
-                    return spec['fallthrough']
+                    ft = spec['fallthrough']
+                    for v in spec.get('fallthrough_vars', []):
+                        if v not in c.env and not v.startswith('self_'):
+                            raise Unsupported(f'{spec["py"]}: variable {v} not bound at the cut point')
+                    return ft
                 raise Unsupported(f'{spec["py"]}: control can fall off the end')
             body = self.block(node.body, cx, fall)
             rtype = cx.rettype
